@@ -5,7 +5,7 @@ import re
 
 from sa import astq
 from sa.astq import norm_text
-from sa.idioms import guarded
+from sa.idioms import guarded, nodes_within
 from sa.project import dotted, walk_local, AnalysisError
 
 EXPLANATION = (    "Table agreement and dataflow shape decided on the source and the "
@@ -316,14 +316,62 @@ def r2(run, ctx):
         run.check('R2', "val.split(',', 1)" in txt and 'val.append(False)' in txt and
                   'val[1] = to_bool(val[1])' in txt, 'hook flag: optional, to_bool, default False',
                   f, h['test'])
-    # DefaultConfigParser.dget conversions
+    # DefaultConfigParser.dget conversions: every value that can be returned, with the
+    # condition under which it is
+    from sa.dataflow import reaching_defs
+    from sa.idioms import eq_test
     dg = ctx.fn('circus.config:DefaultConfigParser.dget')
-    t = norm_text(dg.node)
-    run.check('R2', 'if type is int: value = int(value)' in t and
-              'elif type is bool: value = to_bool(value)' in t and
-              'elif type is float: value = float(value)' in t and
-              'if not self.has_option(section, option): return default' in t,
-              'dget converts by the requested type and returns the default when absent', dg, dg.node)
+    cfg = ctx.cfg(dg)
+    rd = reaching_defs(ctx, dg)
+    rets = [n for n in ctx.live_nodes(dg) if n.kind == 'stmt' and isinstance(n.ast, ast.Return)
+            and n.ast.value is not None]
+    CONV = {'int': 'int', 'to_bool': 'bool', 'float': 'float'}
+
+    def has_opt(v):
+        return lambda e: (v if isinstance(e, ast.Call) and astq.call_last(e) == 'has_option'
+                          else None)
+
+    def type_is(t, v):
+        def a(e):
+            r = eq_test(e, 'type', t)
+            return None if r is None else (r == v)
+        return a
+    seen = set()
+    for ret in rets:
+        for alt in rd.expand(ret, ret.ast.value):
+            e = alt.expr
+            site = alt.used[0].ast if alt.used else ret.ast
+            if norm_text(e) == 'default':
+                seen.add('default')
+                run.check('R2', not rd.feasible(alt, has_opt(True)),
+                          'dget returns the default only when the option is absent', dg, site)
+                continue
+            conv = None
+            inner = e
+            if isinstance(e, ast.Call) and astq.call_last(e) in CONV and len(e.args) == 1:
+                conv, inner = CONV[astq.call_last(e)], e.args[0]
+            raw = isinstance(inner, ast.Call) and norm_text(inner.func) == 'self.get' and \
+                [norm_text(a) for a in inner.args[:2]] == ['section', 'option']
+            if not raw:
+                run.fail('R2', dg, site, 'dget can return %s' % alt.text()[:120],
+                         construct='dget value shape')
+                continue
+            seen.add(conv or 'str')
+            run.check('R2', not rd.feasible(alt, has_opt(False)),
+                      'a stored value is returned only when the option is present', dg, site)
+            if conv:
+                run.check('R2', not rd.feasible(alt, type_is(conv, False)),
+                          'dget converts with %s exactly for type=%s' % (conv, conv), dg, site,
+                          'the %s conversion is applied for another requested type' % conv,
+                          construct='dget conversion %s' % conv)
+            else:
+                for t in ('int', 'bool', 'float'):
+                    run.check('R2', not rd.feasible(alt, type_is(t, True)),
+                              'type=%s never gets the raw string' % t, dg, site,
+                              'dget returns the unconverted string for type=%s' % t,
+                              construct='dget raw for %s' % t)
+    for want in ('default', 'int', 'bool', 'float', 'str'):
+        run.need('R2', [1] if want in seen else [], 'dget outcome %s' % want, dg)
 
 
 # -- R3 layer-list interpretation -----------------------------------------------------
@@ -377,56 +425,67 @@ def _expr_layers(v, env):
     return None
 
 
+def _env_source(e):
+    if norm_text(e) == 'os.environ':
+        return 'os.environ'
+    if isinstance(e, ast.Call) and norm_text(e.func) == 'cfg.items' and e.args and \
+            isinstance(e.args[0], ast.Constant) and not e.keywords:
+        return '[%s]' % e.args[0].value
+    return None
+
+
+def _env_section_present(e):
+    from sa.idioms import member_test
+    return member_test(e, "'env'", 'cfg.sections()')
+
+
 def r3(run, ctx):
     run.rule('R3', 'environment precedence by abstract interpretation of dict operations')
+    from sa.layers import LayerAnalysis
     f = ctx.fn(G)
-    env = _layers(f.node.body, {})
-    run.extra['env_layers'] = {k: v for k, v in env.items() if k in ('global_env', 'local_env')}
-    run.check('R3', env.get('global_env') == ['os.environ', '[env]'],
-              'expansion environment = os.environ overlaid by the [env] section', f, f.node,
-              'global environment layers are %s (later wins)' % env.get('global_env'),
-              construct='global_env layers')
-    run.check('R3', env.get('local_env') == ['[env]'], 'the watcher-visible global part is the '
-              '[env] section alone', f, f.node, 'local_env layers are %s' % env.get('local_env'),
-              construct='local_env layers')
-    t = norm_text(f.node)
-    run.check('R3', 'cfg.set_env(global_env)' in t, 'the parser expands with the global '
-              'environment', f, f.node)
+    cfg = ctx.cfg(f)
+    la = LayerAnalysis(cfg, _env_source, assume=_env_section_present)
+    BOTH, ENV = {('os.environ', '[env]')}, {('[env]',)}
+    se = [(n, c) for n in ctx.live_nodes(f) for c in n.calls()
+          if astq.call_last(c) == 'set_env' and c.args]
+    if run.need('R3', se, 'cfg.set_env(<expansion environment>)', f,
+                'the parser is not given the expansion environment'):
+        for n, c in se:
+            got = la.at(n, c.args[0])
+            run.extra.setdefault('env_layers', {})['set_env'] = sorted(map(list, got or []))
+            run.check('R3', got == BOTH, 'expansion environment = os.environ overlaid by the '
+                      '[env] section', f, n.ast, 'global environment layers are %s (later wins)'
+                      % sorted(got or []), construct='global_env layers')
     # watcher['env'] by copy_env
-    wenv = []
-    for n in ast.walk(f.node):
-        if isinstance(n, ast.Assign) and norm_text(n.targets[0]) == "watcher['env']":
-            wenv.append(n)
+    wenv = [n for n in ctx.live_nodes(f) if n.kind == 'stmt' and isinstance(n.ast, ast.Assign) and
+            norm_text(n.ast.targets[0]) == "watcher['env']"]
     if not run.need('R3', wenv, "assignment of watcher['env']", f):
         return
-    cfg = ctx.cfg(f)
 
     def copy_env(e):
         if norm_text(e) == "watcher['copy_env']":
             return True
         return None
     got = {}
-    for a in wenv:
-        node = [x for x in cfg.nodes if x.ast is a]
-        if not node:
-            continue
-        if guarded(cfg, node[0], copy_env, True):
-            got[True] = _expr_layers(a.value, env)
-        elif guarded(cfg, node[0], copy_env, False):
-            got[False] = _expr_layers(a.value, env)
+    for n in wenv:
+        for flag in (True, False):
+            if guarded(cfg, n, copy_env, flag):
+                got.setdefault(flag, set()).update(la.at(n, n.ast.value) or {('?',)})
     from rules.common import is_fresh_container
-    for a in wenv:
+    for n in wenv:
+        a = n.ast
         run.check('R3', is_fresh_container(a.value), "each watcher gets its own env object (the "
                   "env:PATTERN sections update it in place)", f, a,
                   "watcher['env'] aliases the shared dict %s: an env:PATTERN section applied to "
                   "one watcher leaks into every watcher sharing it" % norm_text(a.value),
                   construct="watcher env aliases %s" % norm_text(a.value))
-    run.check('R3', got.get(True) == ['os.environ', '[env]'], 'with copy_env a watcher starts from '
-              "the daemon's environment overlaid by [env]", f, wenv[0],
-              'with copy_env the base environment is %s' % got.get(True), construct='env copy_env')
-    run.check('R3', got.get(False) == ['[env]'], 'without copy_env a watcher starts from [env] '
-              'alone', f, wenv[-1], 'without copy_env the base environment is %s' % got.get(False),
-              construct='env no copy_env')
+    run.check('R3', got.get(True) == BOTH, 'with copy_env a watcher starts from '
+              "the daemon's environment overlaid by [env]", f, wenv[0].ast,
+              'with copy_env the base environment is %s' % sorted(got.get(True) or []),
+              construct='env copy_env')
+    run.check('R3', got.get(False) == ENV, 'without copy_env a watcher starts from [env] '
+              'alone', f, wenv[-1].ast, 'without copy_env the base environment is %s'
+              % sorted(got.get(False) or []), construct='env no copy_env')
     # env:PATTERN loop
     loops = [n for n in ast.walk(f.node) if isinstance(n, ast.For) and
              norm_text(n.iter) == 'cfg.sections()' and "startswith('env:')" in norm_text(n)]
@@ -453,45 +512,141 @@ def r3(run, ctx):
     exp = [n for n in ast.walk(f.node) if isinstance(n, ast.For) and norm_text(n.iter) == 'watchers'
            and '_expand_section' in norm_text(n)]
     if run.need('R3', exp, 'per-watcher expansion loop', f):
-        sub = _layers(exp[0].body, {'global_env': ['G'], "watcher['env']": ['W']})
-        run.check('R3', sub.get('env') == ['G', 'W'], "a watcher's options are expanded with the "
-                  'global environment overlaid by its own env', f, exp[0],
-                  'the expansion environment layers are %s' % sub.get('env'),
-                  construct='expansion env layers')
-        run.check('R3', '_expand_section(watcher, env)' in norm_text(exp[0]),
-                  'every watcher is expanded with that environment', f, exp[0])
+        hdr = [n for n in cfg.nodes if n.kind == 'iter' and n.ast is exp[0]]
+        calls = [(n, c) for n in nodes_within(cfg, exp[0].body) for c in n.calls()
+                 if astq.call_last(c) == '_expand_section' and len(c.args) == 2]
+        if run.need('R3', calls if hdr else [], '_expand_section(watcher, env) call', f):
+            sub = LayerAnalysis(cfg, lambda e: None, seeds={hdr[0].id: {
+                'global_env': frozenset([('G',)]), "watcher['env']": frozenset([('W',)])}})
+            for n, c in calls:
+                lay = sub.at(n, c.args[1])
+                run.check('R3', lay == {('G', 'W')}, "a watcher's options are expanded with the "
+                          'global environment overlaid by its own env', f, n.ast,
+                          'the expansion environment layers are %s' % sorted(lay or []),
+                          construct='expansion env layers')
+                run.check('R3', norm_text(c.args[0]) == norm_text(exp[0].target),
+                          'every watcher is expanded with that environment', f, n.ast)
         if loops:
             run.check('R3', exp[0].lineno > loops[0].lineno, 'expansion happens after the env: '
                       'sections were applied', f, exp[0])
 
 
+def _is_expansion(e, of=None, env='self._env'):
+    """replace_gnu_args(<of>, env=<env>)"""
+    if not (isinstance(e, ast.Call) and astq.call_last(e) == 'replace_gnu_args' and e.args):
+        return False
+    kw = astq.kwarg(e, 'env')
+    if kw is None or norm_text(kw) != env:
+        return False
+    return of is None or of(e.args[0])
+
+
 def r4(run, ctx):
     run.rule('R4', 'expansion is applied everywhere; first definition wins; keys case-sensitive')
-    for key, needle in (('circus.config:DefaultConfigParser.get',
-                         'return replace_gnu_args(res, env=self._env)'),
-                        ('circus.config:DefaultConfigParser.items',
-                         'replace_gnu_args(value, env=self._env)')):
-        f = ctx.fn(key)
-        run.check('R4', needle in norm_text(f.node), '%s expands every value' % f.qualname, f,
-                  f.node, '%s returns unexpanded values' % f.qualname)
+    from sa.dataflow import reaching_defs
+    from sa.idioms import member_test
+    # DefaultConfigParser.get: whatever is returned is the expansion of the stored value
+    f = ctx.fn('circus.config:DefaultConfigParser.get')
+    rd = reaching_defs(ctx, f)
+    rets = [n for n in ctx.live_nodes(f) if n.kind == 'stmt' and isinstance(n.ast, ast.Return)]
+
+    def parent_get(x):
+        return isinstance(x, ast.Call) and astq.call_last(x) == 'get' and \
+            norm_text(x.func) in ('StrictConfigParser.get', 'super().get', 'ConfigParser.get',
+                                  'super(DefaultConfigParser, self).get')
+    alts = [a for r in rets if r.ast.value is not None for a in rd.expand(r, r.ast.value)]
+    run.check('R4', bool(alts) and all(_is_expansion(a.expr, parent_get) for a in alts) and
+              all(r.ast.value is not None for r in rets),
+              '%s expands every value' % f.qualname, f, f.node,
+              '%s returns unexpanded values' % f.qualname)
+    # DefaultConfigParser.items: unless noreplace, every value of the section is expanded
+    f = ctx.fn('circus.config:DefaultConfigParser.items')
+    rd = reaching_defs(ctx, f)
+    rets = [n for n in ctx.live_nodes(f) if n.kind == 'stmt' and isinstance(n.ast, ast.Return)]
+    noreplace = lambda v: (lambda e: v if norm_text(e) == 'noreplace' else None)
+    good = bool(rets)
+    n_exp = 0
+    for r in rets:
+        if r.ast.value is None:
+            good = False
+            continue
+        for a in rd.expand(r, r.ast.value):
+            if not rd.feasible(a, noreplace(False)):
+                continue          # only reachable with noreplace: raw items, as documented
+            e = a.expr
+            ok = isinstance(e, ast.ListComp) and len(e.generators) == 1 and \
+                not e.generators[0].ifs and isinstance(e.elt, ast.Tuple) and \
+                len(e.elt.elts) == 2 and isinstance(e.generators[0].target, ast.Tuple) and \
+                norm_text(e.elt.elts[0]) == norm_text(e.generators[0].target.elts[0]) and \
+                _is_expansion(e.elt.elts[1], lambda x: norm_text(x) == norm_text(
+                    e.generators[0].target.elts[1])) and \
+                isinstance(e.generators[0].iter, ast.Call) and \
+                astq.call_last(e.generators[0].iter) == 'items'
+            good = good and ok
+            n_exp += 1
+    run.check('R4', good and n_exp >= 1, '%s expands every value' % f.qualname, f, f.node,
+              '%s returns unexpanded values' % f.qualname)
+    # _expand_section: every option except name and env
     es = ctx.fn(G + '._expand_section')
-    t = norm_text(es.node)
-    run.check('R4', "exclude = ('name', 'env')" in t and 'for option in section.keys()' in t and
-              '_expand_vars(section, option, env)' in t, '_expand_section visits every option '
-              'except name and env', es, es.node)
+    cfg = ctx.cfg(es)
+    rd = reaching_defs(ctx, es)
+    loops = [n for n in cfg.nodes if n.kind == 'iter' and
+             norm_text(n.ast.iter) in ('section.keys()', 'section', 'list(section.keys())',
+                                       'list(section)') and isinstance(n.ast.target, ast.Name)]
+    ok = False
+    if loops:
+        lv = loops[0].ast.target.id
+        calls = [n for n in nodes_within(cfg, loops[0].ast.body) for c in n.calls()
+                 if astq.call_last(c) == '_expand_vars' and
+                 [norm_text(a) for a in c.args] == ['section', lv, 'env']]
+        tests = [t for t in nodes_within(cfg, loops[0].ast.body) if t.kind == 'test']
+        # the only condition on the way to the call is `<option> not in exclude`
+        ok = bool(calls) and all(member_test(t.ast, lv, 'exclude') is not None for t in tests) and \
+            all(guarded(cfg, c, lambda e: member_test(e, lv, 'exclude'), False) for c in calls)
+        # ... and the default exclusion is exactly {name, env}
+        dflt = [d for t in tests for d in rd.reaching(t, 'exclude') if d.kind == 'assign']
+        ok = ok and bool(dflt) and all(
+            isinstance(d.value, (ast.Tuple, ast.List, ast.Set)) and
+            {astq.const_value(x) for x in d.value.elts} == {'name', 'env'} for d in dflt)
+    run.check('R4', ok, '_expand_section visits every option except name and env', es, es.node)
+    # _expand_vars: strings are expanded in place, dict values recursively
     ev = ctx.fn(G + '._expand_vars')
-    t = norm_text(ev.node)
-    run.check('R4', 'replace_gnu_args(target[key], env=env)' in t and
-              'isinstance(target[key], dict)' in t and '_expand_vars(target[key], k, env)' in t,
+    cfg = ctx.cfg(ev)
+    isinst = lambda ty: (lambda e: True if isinstance(e, ast.Call) and dotted(e.func) == 'isinstance'
+                         and len(e.args) == 2 and norm_text(e.args[0]) == 'target[key]' and
+                         norm_text(e.args[1]) == ty else None)
+    stores = [n for n in ctx.live_nodes(ev) if n.kind == 'stmt' and isinstance(n.ast, ast.Assign)
+              and norm_text(n.ast.targets[0]) == 'target[key]' and
+              _is_expansion(n.ast.value, lambda x: norm_text(x) == 'target[key]', env='env')]
+    rec = []
+    for h in cfg.nodes:
+        if h.kind == 'iter' and norm_text(h.ast.iter) in ('target[key].keys()', 'target[key]',
+                                                          'list(target[key].keys())') and \
+                isinstance(h.ast.target, ast.Name):
+            for n in nodes_within(cfg, h.ast.body):
+                for c in n.calls():
+                    if astq.call_last(c) == '_expand_vars' and \
+                            [norm_text(a) for a in c.args] == ['target[key]', h.ast.target.id, 'env']:
+                        rec.append((h, n))
+    run.check('R4', bool(stores) and all(guarded(cfg, n, isinst('str'), True) for n in stores) and
+              bool(rec) and all(guarded(cfg, h, isinst('dict'), True) and
+                                not [t for t in nodes_within(cfg, h.ast.body) if t.kind == 'test']
+                                for h, n in rec),
               '_expand_vars expands strings and recurses into dict values', ev, ev.node,
               'nested options (streams, hooks, rlimits) are not expanded')
-    rd = ctx.fn('circus.util:StrictConfigParser._read')
-    t = norm_text(rd.node)
-    run.check('R4', 'if optname in cursect: continue' in t, 'the first definition of a key is '
-              'kept', rd, rd.node, 'a later definition of a key overrides the earlier one')
-    run.check('R4', 'self.optionxform = str' in t, 'option names are case-sensitive', rd, rd.node)
+    # StrictConfigParser._read: a key that is already there is not overwritten
+    rdf = ctx.fn('circus.util:StrictConfigParser._read')
+    cfg = ctx.cfg(rdf)
+    t = norm_text(rdf.node)
+    first = [n for n in ctx.live_nodes(rdf) if n.kind == 'stmt' and isinstance(n.ast, ast.Assign)
+             and norm_text(n.ast.targets[0]) == 'cursect[optname]']
+    run.check('R4', bool(first) and all(
+        guarded(cfg, n, lambda e: member_test(e, 'optname', 'cursect'), False) for n in first),
+        'the first definition of a key is kept', rdf, first[0].ast if first else rdf.node,
+        'a later definition of a key overrides the earlier one')
+    run.check('R4', 'self.optionxform = str' in t, 'option names are case-sensitive', rdf, rdf.node)
     run.check('R4', 'cursect[optname].append(value)' in t, 'continuation lines extend the value',
-              rd, rd.node)
+              rdf, rdf.node)
     se = ctx.fn('circus.config:DefaultConfigParser.set_env')
     run.check('R4', 'self._env = dict(env)' in norm_text(se.node), 'set_env installs the '
               'expansion environment', se, se.node)
